@@ -1,6 +1,9 @@
 /- line-protocol driver for C16 (harmonic oscillator, scaled basis).
-   opmat <N> <s p/q> <x0 p/q> <symbol with '_' for spaces>  ->  N*N entries re:im row-major, or "unsupported" -/
+   opmat <N> <s p/q> <x0 p/q> <symbol with '_' for spaces>  ->  N*N entries re:im row-major, or "unsupported"
+   spin <sym;sym;…>                   -> the four entries re:im of BasisHalfSpin.op_mat, or "unsupported"
+   me <vac 0|1> <adagA|aAdag|adag|a> <n> <i> <j>  -> entries of the multi-electron table (n or n+1 square), or "unsupported" -/
 import RenoVerif.Model.SHO
+import RenoVerif.Model.Spin
 import RenoVerif.Driver.Util
 open RenoVerif RenoVerif.SHO RenoVerif.Util
 
@@ -13,6 +16,22 @@ def step (line : String) : String :=
       match opmat2 ⟨s, x0⟩ (sym.replace "_" " ") with
       | some M => " ".intercalate ((List.range n).flatMap fun i => (List.range n).map fun j => gS (M i j))
       | none => "unsupported"
+    | _, _, _ => "bad-op"
+  | ["spin", w] => match Spin.opMat (w.splitOn ";") with
+    | some m => " ".intercalate ([m.a, m.b, m.c, m.d].map fun z => s!"{z.re}:{z.im}")
+    | none => "unsupported"
+  | ["me", vac, op, n, i, j] => match n.toNat?, i.toNat?, j.toNat? with
+    | some n, some i, some j =>
+      let o : Option Spin.EOp := if op == "adagA" then some .adagA else if op == "aAdag" then some .aAdag
+        else if op == "adag" then some .adag else if op == "a" then some .a else none
+      match o with
+      | none => "bad-op"
+      | some o =>
+        let d := if vac == "1" then n + 1 else n
+        let f := if vac == "1" then Spin.multiEVac o i j else Spin.multiE o i j
+        match f 0 0 with
+        | none => "unsupported"
+        | some _ => " ".intercalate ((List.range d).flatMap fun r => (List.range d).map fun c => toString ((f r c).getD 0))
     | _, _, _ => "bad-op"
   | _ => "bad-op"
 
